@@ -46,6 +46,9 @@ func resolveRef(ref string, f *model.Forest, v *model.View) (Hash, error) {
 		if err != nil || i < 0 {
 			return Hash{}, fmt.Errorf("bad ref %q", ref)
 		}
+		if f != nil && i < len(f.Hashes) {
+			return f.Hashes[i], nil
+		}
 		return model.LeafHash(i), nil
 	case 'N':
 		p, err := strconv.ParseUint(arg, 10, 64)
